@@ -19,6 +19,7 @@ import Sentinel.Drv.C18
 import Sentinel.Drv.C19
 import Sentinel.Drv.C20
 import Sentinel.Drv.INT
+import Sentinel.Drv.AGG
 /-! `sentinel-driver <property> <mode>` — line-protocol model driver (core Lean only, compiled).
     Modes: `model` (code-shaped model), `spec` (abstract reference) or `oracle` (judge an implementation trace). -/
 def main (args : List String) : IO UInt32 := do
@@ -44,4 +45,5 @@ def main (args : List String) : IO UInt32 := do
   | ["C19", mode] => Sentinel.Drv.C19.run mode; return 0
   | ["C20", mode] => Sentinel.Drv.C20.run mode; return 0
   | ["INT", mode] => Sentinel.Drv.INT.run mode; return 0
+  | ["AGG", mode] => Sentinel.Drv.AGG.run mode; return 0
   | _ => IO.eprintln "usage: sentinel-driver <property> <model|spec|oracle>"; return 2
